@@ -5,3 +5,10 @@ import Dashu.Props.C20GenLoop
 #print axioms Dashu.Props.C20GenLoop.ratio_loop_regenerated
 #print axioms Dashu.Props.C20GenLoop.ratio_loop_run_regenerated
 #print axioms Dashu.Props.C20GenLoop.ratio_loop_start
+#print axioms Dashu.Props.C20GenLoop.int_finish_regenerated
+#print axioms Dashu.Props.C20GenLoop.int_parse_regenerated
+#print axioms Dashu.Props.C20GenLoop.int_finish_radix_width
+#print axioms Dashu.Props.C20GenLoop.signed_parts
+#print axioms Dashu.Props.C20GenLoop.finish_tail
+#print axioms Dashu.Props.C20GenLoop.ratio_finish_regenerated
+#print axioms Dashu.Props.C20GenLoop.ratio_parse_regenerated
